@@ -126,10 +126,63 @@ func init() {
 			if !w.Dead && b.Txs[1].OK() {
 				c.Ev("targeted_reserve_draining_exit_accepted")
 				// put the liquidity back so the run can go on
-				w.Step(5, w.Tx(cr, single(1, "uatom", S/5)))
+				w.Step(5, w.Tx(cr, &ammtypes.MsgJoinPool{Sender: cr.S(), PoolId: 1, MaxAmountsIn: sdk.NewCoins(chain.Coin("uatom", S/5)), ShareAmountOut: math.NewInt(1)}))
 				break
 			}
 			c.Ev("targeted_reserve_draining_exit_rejected")
+		}
+		// swaps-then-exit: bursts of swaps through the leveraged oracle pool by other users (a swap fee
+		// and a weight-breaking fee leave the pool's books on each of them, and every derived record
+		// of the pool has to follow), then, with nothing else in between and flat prices, a provider's
+		// single-denom exit — in the denom the burst left over-weight and in the other one — judged
+		// by the per-share monitor against the balances the pool really has
+		w.Step(4000) // lock-ups of the shares joined above expire
+		for round := 0; round < 6 && !w.Dead; round++ {
+			// the provider with the most shares of the pool exits
+			cr = u[0]
+			held := func(a *chain.Actor) math.Int {
+				cm := w.App.CommitmentKeeper.GetCommitments(w.ReadCtx(), a.Addr)
+				return cm.GetCommittedAmountForDenom(ammtypes.GetPoolShareDenom(1))
+			}
+			for _, a := range u[:8] {
+				if held(a).GT(held(cr)) {
+					cr = a
+				}
+			}
+			in, out := "uusdc", "uatom"
+			if round%2 == 1 {
+				in, out = out, in
+			}
+			for k := 0; k < 2 && !w.Dead; k++ {
+				p1, _ := w.App.AmmKeeper.GetPool(w.ReadCtx(), 1)
+				var rin math.Int
+				for _, a := range p1.PoolAssets {
+					if a.Token.Denom == in {
+						rin = a.Token.Amount
+					}
+				}
+				txs := []*chain.TxRecord{}
+				for i, div := range []int64{12, 25, 40} {
+					a := u[[]int{8, 10, 11}[i]]
+					txs = append(txs, w.Tx(a, &ammtypes.MsgSwapExactAmountIn{Sender: a.S(), Routes: []ammtypes.SwapAmountInRoute{{PoolId: 1, TokenOutDenom: out}}, TokenIn: sdk.NewCoin(in, rin.QuoRaw(div).AddRaw(1)), TokenOutMinAmount: math.NewInt(1)}))
+				}
+				w.Step(5, txs...)
+			}
+			exitDenom := in // the side the burst left over-weight
+			if round >= 4 {
+				exitDenom = out
+			}
+			cmc := w.App.CommitmentKeeper.GetCommitments(w.ReadCtx(), cr.Addr)
+			sh := cmc.GetCommittedAmountForDenom(ammtypes.GetPoolShareDenom(1)).QuoRaw(40)
+			if !sh.IsPositive() || w.Dead {
+				break
+			}
+			b := w.Step(5, w.Tx(cr, &ammtypes.MsgExitPool{Sender: cr.S(), PoolId: 1, ShareAmountIn: sh, TokenOutDenom: exitDenom, MinAmountsOut: sdk.NewCoins()}))
+			if !w.Dead && b.Txs[1].OK() {
+				c.Ev("single_denom_exit_right_after_swap_burst")
+			} else {
+				c.Ev("single_denom_exit_right_after_swap_burst_refused")
+			}
 		}
 		g := v.Gen(w, c, MixLP)
 		g.MaxTx = 8
